@@ -7,6 +7,7 @@ import Resonate.Model.Coroutines
 import Resonate.Proofs.Frame
 import Resonate.Proofs.Lift
 import Resonate.Proofs.StoreBasics
+import Resonate.Proofs.SysDb
 namespace Resonate.C09
 open Resonate SqlSpec
 
@@ -202,6 +203,27 @@ theorem heartbeat_coroutine (p : String) (t0 : Time) :
 
 theorem sweep_coroutine (t0 : Time) :
     ∃ k, Coro.timeoutLocks t0 = .yield [.store [.timeoutLocks { timeout := t0 }]] k := ⟨_, rfl⟩
+
+/-! ### every run of the server -/
+
+/-- **At any instant a resource has at most one lock row — in EVERY state reachable by the kernel model**, from any database
+    where that holds: any requests, ticks, store batches of any composition and order with injected failures, any
+    configuration, shutdown, crashes and restarts; no hypothesis on the run at all (the store keeps the invariant for
+    arbitrary commands, `lockUnique_exec`). -/
+theorem at_most_one_holder_every_run (env : Env) (db0 : Db) (h0 : LockUnique db0) (cs : List Choice) :
+    LockUnique ((Sys.boot env d (defs d) db0).run cs).db := by
+  have h := run_rel (fun a b => LockUnique a → LockUnique b) (fun _ h => h) (fun _ _ _ h1 h2 h => h2 (h1 h))
+    (Sys.boot env d (defs d) db0) (by intro db db' c r hx hi; exact lockUnique_exec d db db' c r hi hx) cs
+  exact h h0
+
+/-- … hence two executions never hold the same resource in any reachable state -/
+theorem never_two_holders (env : Env) (db0 : Db) (h0 : LockUnique db0) (cs : List Choice) (res e1 e2 : String)
+    (h1 : Held ((Sys.boot env d (defs d) db0).run cs).db res e1) (h2 : Held ((Sys.boot env d (defs d) db0).run cs).db res e2) : e1 = e2 := by
+  obtain ⟨r1, hr1, hres1, he1⟩ := h1
+  obtain ⟨r2, hr2, hres2, he2⟩ := h2
+  have hu := at_most_one_holder_every_run d env db0 h0 cs
+  have : r1 = r2 := lock_row_unique _ hu r1 r2 hr1 hr2 (hres1.trans hres2.symm)
+  rw [← he1, ← he2, this]
 
 /-! ### non-vacuity -/
 def exLock : LockRow := { resourceId := "r", executionId := "e", processId := "p", ttl := 5, expiresAt := 15 }
